@@ -300,6 +300,7 @@ class Run:
         bad = sorted(k for k, v in per.items() if v[1])
         if bad:
             self.broken.append({"what": "correspondence: the hand-written model disagrees with the implementation for " + ", ".join(bad), "detail": "\n".join(mism[:12])})
+            self.corr_mism = getattr(self, "corr_mism", []) + mism[:40]
         return cases, mism
 
     # ------------------------------------------------------------------ known findings
@@ -348,9 +349,16 @@ class Run:
         # 2. broken obligations without a failing input
         if self.broken and not self.fails:
             nviol += 1
-            path = os.path.join(replay_dir, "unproved.json")
-            json.dump({"property": self.pid, "kind": "no-failing-input-found", "no_longer_checks": self.broken}, open(path, "w"), indent=1)
-            self.say("VIOLATION property=%s replay=%s no-failing-input-found" % (self.pid, path))
+            cm = getattr(self, "corr_mism", [])
+            if cm:
+                # the implementation differs, on these inputs, from the model for which the property theorems are proved: those inputs are the replay
+                path = os.path.join(replay_dir, "correspondence_mismatch.json")
+                json.dump({"property": self.pid, "kind": "failing-input (implementation against the proved model)", "cases": cm, "no_longer_checks": self.broken}, open(path, "w"), indent=1)
+                self.say("VIOLATION property=%s replay=%s" % (self.pid, path))
+            else:
+                path = os.path.join(replay_dir, "unproved.json")
+                json.dump({"property": self.pid, "kind": "no-failing-input-found", "no_longer_checks": self.broken}, open(path, "w"), indent=1)
+                self.say("VIOLATION property=%s replay=%s no-failing-input-found" % (self.pid, path))
         nob = len(self.obligations); ndis = sum(1 for o in self.obligations if o[1])
         cov = {"obligations": max(nob, 1) if nob else 0, "discharged": ndis,
                "checker_cmd": checker_cmd, "trusted_base": level_note_trusted + sorted("axiom: " + a for a in self.axioms),
